@@ -182,14 +182,17 @@ def helper_shape(fx, path):
     if not succ:
         return None
     shapes = []
+    byte_term = {}
     for st, v, arith in succ:
         pieces = []
         for e in st.effects:
             if e[0] != "call" or not e[1].endswith("Write::write_all"):
                 return None
             arg = e[2][1]
-            if arg[0] == "in" and arg[1] in names:
-                pieces.append(("bytes", names.index(arg[1])))
+            a_in = as_bytes_of(arg)     # `section.as_bytes()` taken inside the helper (a `&S: Pod` parameter): the same bytes
+            if a_in[0] == "in" and a_in[1] in names:
+                pieces.append(("bytes", names.index(a_in[1])))
+                byte_term[names.index(a_in[1])] = arg
                 continue
             if arg[0] == "call" and arg[1] == "std::ops::Index::index":
                 arg = ("index",) + tuple(arg[2])
@@ -220,7 +223,7 @@ def helper_shape(fx, path):
         prev = [p for p in shapes[0][0][:i] if p[0] == "bytes"]
         if not prev:
             return None
-        ln = ("call", "core::slice::len", (("in", names[prev[-1][1]]),))
+        ln = ("call", "core::slice::len", (byte_term.get(prev[-1][1], ("in", names[prev[-1][1]])),))
         N = ALIGN
         for r in range(N):
             # any len with len % N == r behaves alike as long as the expressions only use len through `len % N`; use two
@@ -414,6 +417,7 @@ def check_sections(fx, rep, rule, wv, seqs):
         order = []
         assigns = {}
         extends = {}
+        n_ext = {}
         pushes = []
         for i, e in enumerate(effs):
             if e[0] == "assign" and e[1][0] == "place" and len(e[1][2]) == 2 and e[1][2][0] == "class":
@@ -423,6 +427,7 @@ def check_sections(fx, rep, rule, wv, seqs):
                 # on the local that is pushed below (its origin - this class's entry - is checked on the push)
                 assigns[e[1][2][0]] = (i, e[2])
             if e[0] == "call" and e[1].endswith("Extend::extend") and e[2][0][0] == "place":
+                n_ext[pl_name(e[2][0])] = n_ext.get(pl_name(e[2][0]), 0) + 1
                 extends[pl_name(e[2][0])] = (i, e[2][1])
             if e[0] == "call" and e[1].endswith("Vec::push") and e[2][0][0] == "place":
                 pushes.append((i, pl_name(e[2][0]), e[2][1]))
@@ -475,8 +480,11 @@ def check_sections(fx, rep, rule, wv, seqs):
                 if t[0] == "call" and t[1].endswith("Iterator::flatten") and len(t[2]) == 1 and t[2][0][0] == "call" \
                         and t[2][0][1].endswith(("BTreeMap::into_values", "BTreeMap::values")) and t[2][0][2][0] == mk_field(R.ELEM, X):
                     src_ok = True
-            rep.check(rule, "%s/tiling/%s-extend" % (rule, X), ext is not None and src_ok and (off is None or off[0] < ext[0]), loc=F.loc(FL_["node"]),
-                      found="extend(%s, %s)%s" % (vec, S.tstr(ext[1]) if ext else "-", "" if (off and ext and off[0] < ext[0]) else " [offset not taken before the extend]"),
+            # the offset is read before the extend: either the assignment precedes it, or the assigned term *is* the loop-entry length
+            # (a read after the extend would be `len(after(extend ..))`: places are versioned by the calls that mutate them)
+            before = off is None or (ext is not None and off[0] < ext[0]) or got == want_off
+            rep.check(rule, "%s/tiling/%s-extend" % (rule, X), ext is not None and src_ok and before and n_ext.get(vec) == 1, loc=F.loc(FL_["node"]),
+                      found="extend(%s, %s)%s" % (vec, S.tstr(ext[1]) if ext else "-", "" if before else " [offset not taken before the extend]"),
                       expected="offset taken, then %s extended with this class's %s map values in key order (into_values + flat_map)" % (vec, X))
         cp = [p for p in pushes if p[1] == vecs.get("classes")]
         okp = len(cp) == 1 and cp[0][0] > max([a[0] for a in assigns.values()] or [0])
